@@ -237,6 +237,12 @@ def leg_t_gen(rep, work, mod, name, traces, variables, constants, config_vars, a
     """leg T through a generated trace module (harness/tracegen.py): the module is written to the scratch directory,
     next to links to the hand-written specifications it instantiates"""
     from . import tracegen
+    if '"?"' in json.dumps(traces):
+        # a probe component could not be read (it degraded to the wildcard): TLC cannot compare it; the edge replay
+        # (which understands the wildcard) still ran - skip trace validation instead of raising a false alarm
+        rep.log(f"leg T {mod}/{name}: skipped - observations contain the wildcard '?' (an unreadable probe component)")
+        rep.extra.setdefault("trace_validation", []).append(dict(cfg=f"{mod}/{name}", skipped="wildcard in observations"))
+        return {}
     for f in os.listdir(tlc.SPECS):
         if f.endswith(".tla") and not os.path.exists(work.path(f)):
             os.symlink(os.path.join(tlc.SPECS, f), work.path(f))
